@@ -21,6 +21,12 @@ MODEL_BIN = LEAN_DIR / ".lake" / "build" / "bin" / "seedmodel"
 NPROC = min(16, os.cpu_count() or 4)
 
 
+def _limits():
+    """address-space cap for child processes: a runaway case must not take the machine down"""
+    import resource
+    resource.setrlimit(resource.RLIMIT_AS, (6 << 30, 6 << 30))
+
+
 class BuildError(Exception):
     def __init__(self, stage, log):
         super().__init__(f"{stage} failed")
@@ -84,7 +90,8 @@ def _run_blocks(cmd, sources, timeout):
     If the process dies (abort, stack overflow) the remaining sources are retried one by one."""
     inp = "".join(hexsrc(s) + "\n" for s in sources).encode()
     try:
-        p = subprocess.run(cmd, input=inp, stdout=subprocess.PIPE, stderr=subprocess.PIPE, timeout=timeout)
+        p = subprocess.run(cmd, input=inp, stdout=subprocess.PIPE, stderr=subprocess.PIPE, timeout=timeout,
+                           preexec_fn=_limits)
         out = p.stdout.decode("utf-8", errors="replace")
         rc = p.returncode
     except subprocess.TimeoutExpired as e:
@@ -158,7 +165,8 @@ def _run_cases(cmd_fn, sources, timeout):
     cmd = cmd_fn(nonce)
     inp = "".join(hexsrc(s) + "\n" for s in sources).encode()
     try:
-        p = subprocess.run(cmd, input=inp, stdout=subprocess.PIPE, stderr=subprocess.PIPE, timeout=timeout)
+        p = subprocess.run(cmd, input=inp, stdout=subprocess.PIPE, stderr=subprocess.PIPE, timeout=timeout,
+                           preexec_fn=_limits)
         out = p.stdout.decode("utf-8", errors="replace")
         rc = p.returncode
     except subprocess.TimeoutExpired as e:
@@ -176,7 +184,7 @@ def _run_cases(cmd_fn, sources, timeout):
     return res
 
 
-def run_batch(side, sources, path="t.sd", fuel=2000000, timeout=900):
+def run_batch(side, sources, path="t.sd", fuel=2000000, timeout=300):
     if not sources:
         return []
     if side == "impl":
